@@ -54,6 +54,16 @@ func callWithHook(inv *invocation.Token, loader delegation.Loader, hook string) 
 		return inv.ExecutionAllowedWithArgsHook(loader, func(a args.ReadOnly) (*args.Args, error) { return a.WriteableClone(), nil })
 	case "empty":
 		return inv.ExecutionAllowedWithArgsHook(loader, func(a args.ReadOnly) (*args.Args, error) { return args.New(), nil })
+	case "add":
+		// what argument hooks are for: complete a writable clone of the invocation's arguments
+		return inv.ExecutionAllowedWithArgsHook(loader, func(a args.ReadOnly) (*args.Args, error) {
+			c := a.WriteableClone()
+			if err := c.Add("added-by-hook", 1); err != nil {
+				return nil, err
+			}
+			c.Include(concreteArgs(1))
+			return c, nil
+		})
 	case "c0", "c1", "c2":
 		k := int(hook[1] - '0')
 		return inv.ExecutionAllowedWithArgsHook(loader, func(a args.ReadOnly) (*args.Args, error) { return concreteArgs(k), nil })
